@@ -38,8 +38,15 @@ def _run(prop, repo, tier):
     check_wire(prop, res, repo, cas)
     # the formulas are compared relative to the accessor summaries; the summaries are contracts of the helpers
     from ..contracts import check_all
+    from ..driver import check_round_by
 
     check_all(prop, res, repo)
+    # 'up to the error the configured rounding can introduce': both drivers round to the indicator's own round_value
+    check_round_by(prop, res, repo)
+    # the movement helpers the formulas call are used through contracts (window, tie rule); check them against their bodies
+    from .c17 import check_movement_contracts
+
+    check_movement_contracts(prop, res, repo)
     res.universe = {"classes": GROUPS[prop]}
     return res, cas
 
